@@ -93,4 +93,12 @@ theorem gen_patternsShape_eq : Bobo.Gen.DeciderFrag.patternsShape =
     ["first-block:any-predicate,raise-counts-as-no,empty-history", "new-run:index-1,history-{group0:[event]},fresh-id",
      "return:completed,updated"] := by decide
 
+
+/-- `_maybe_cache` appends each record to its bounded memory (`maybeCache` = `dqExtend` = repeated `dqAppend` on a
+`deque(maxlen = max_cache)`), memorising is enabled iff `max_cache > 0` (`Cfg.caching`), and `_get_pattern` is the first
+pattern of that name among the named phenomenon's own patterns (`Cfg.getPattern`). -/
+theorem gen_memoriseShape_eq : Bobo.Gen.DeciderFrag.memoriseShape =
+    ["completed->completed-memory:append-each", "halted->halted-memory:append-each", "caching:=max_cache>0",
+     "memories:deque(maxlen=max_cache)", "get_pattern:first-of-that-name-in-the-named-phenomenon"] := by decide
+
 end Bobo.Decider
